@@ -416,6 +416,44 @@ def aggregate (c : Cfg) (keyOf : Row → Key) (agg : List Row → Row) (hasGroup
     (cap : Option Nat) (limit : Option Nat) (rows : List Row) : List Row :=
   aggregateSorted c keyOf agg hasGroupBy cap limit (sortByGroupKey keyOf rows)
 
+/-! ## python.py: join()'s shared rows list and aggregate()'s operand widening (aliasing) -/
+
+/-- join() returns one Table object per joined table, all built over ONE rows list
+    (`Table(table.columns, table.rows, column_range)`).  A small heap: list objects by address, and for each table of
+    the context the address its `rows` attribute holds; `views[0]` is `context.table` (the first table). -/
+structure Heap where
+  cells : List (List Row)
+  views : List Nat
+deriving Repr, DecidableEq
+
+def Heap.addr (h : Heap) (v : Nat) : Nat := h.views.getD v 0
+
+/-- the rows a table's readers see -/
+def Heap.read (h : Heap) (v : Nat) : List Row := h.cells.getD (h.addr v) []
+
+/-- the context join() hands on: `n` tables sharing the joined rows -/
+def Heap.ofJoin (rows : List Row) (n : Nat) : Heap := ⟨[rows], List.replicate n 0⟩
+
+def widened (rows ops : List Row) : List Row := List.zipWith (· ++ ·) rows ops
+
+/-- how aggregate() attaches the operand columns to the rows (pinned from the source by the translator) -/
+inductive WidenForm where
+  /-- `for i, (a, b) in enumerate(zip(context.table.rows, operand_table.rows)): context.table.rows[i] = a + b`:
+      subscript stores into the list object the first table holds -/
+  | subscriptStore
+  /-- `context.table.rows = [a + b for …]`: a NEW list object, bound to the first table's attribute only -/
+  | attributeRebind
+deriving DecidableEq, Repr
+
+def Heap.widen (form : WidenForm) (h : Heap) (ops : List Row) : Heap :=
+  match form with
+  | .subscriptStore => ⟨h.cells.set (h.addr 0) (widened (h.read 0) ops), h.views⟩
+  | .attributeRebind => ⟨h.cells ++ [widened (h.read 0) ops], h.views.set 0 h.cells.length⟩
+
+/-- Context.sort: `self.table.rows.sort(key=…)`, in place on the list object the first table holds -/
+def Heap.sortInPlace (h : Heap) (keyOf : Row → Key) : Heap :=
+  ⟨h.cells.set (h.addr 0) (sortByGroupKey keyOf (h.read 0)), h.views⟩
+
 /-! ## python.py: scan / static / _project_and_filter -/
 
 /-- PythonExecutor._project_and_filter.  `for reader in table_iter:` with
